@@ -665,6 +665,32 @@ def layout_fold_rule(repo: Repo, rep: Report, rid: str, max_len: int = 2, part: 
                   f"{bad[0][3] if bad else ''}", ufi.loc())
 
 
+def struct_rw_fold_rule(repo: Repo, rep: Report, rid: str, max_len: int = 2) -> None:
+    rep.rule(rid, f"interpreted structure reader and writer, bounded-exhaustive: StructureMetaType._read / _write (with the repository's BitBuffer) interpreted "
+                  f"on every sequence of up to {max_len} field kinds plus longer fixed ones, packed and aligned, little and big endian, for streams starting at 0 "
+                  "and at 16: every field is fetched at start + its reference offset (behind a dynamic field: at the aligned absolute position), bit-fields "
+                  "are the C-order bits of their unit, recorded sizes are the type sizes, the reader stops at start + size, and dumping the parsed values "
+                  "gives the image back")
+    from ..structfold import fold_struct_rw
+
+    cache = repo.__dict__.setdefault("_struct_rw_folds", {})
+    if max_len not in cache:
+        cache[max_len] = fold_struct_rw(repo, max_len)
+    fold = cache[max_len]
+    rd = repo.func("types/structure.py", "StructureMetaType._read")
+    if fold is None:
+        rep.ok(rid, f"{rd.key}:rw-fold", "not foldable with the evaluator's whitelist: the structural rules decide alone", rd.loc(), nontrivial=False)
+        return
+    rep.info["struct_rw_fold_cases"] = fold["cases"]
+    empty = [b_ for b_ in fold["bad"] if not b_[0]]
+    other = [b_ for b_ in fold["bad"] if b_[0]]
+    rep.check(not other, rid, f"{rd.key}:rw-fold", f"{fold['cases']} cases agree with the reference",
+              f"structure {other[0][0] if other else ''} ({', '.join(other[0][1:4]) if other else ''}): {other[0][4] if other else ''}", rd.loc())
+    rep.check(not empty, rid, f"{rd.key}:rw-fold:empty structure", "an empty structure consumes nothing and leaves the stream where it was",
+              f"empty structure ({', '.join(empty[0][1:4]) if empty else ''}): {empty[0][4] if empty else ''}: the tail alignment computes -tell() & (alignment - 1) with "
+              "alignment 0, i.e. -tell(), and seeks back to the start of the stream", rd.loc())
+
+
 def run(repo: Repo, rep: Report, tier: str) -> None:
     type_table_rule(repo, rep, "C04.R1")
     provenance_rule(repo, rep, "C04.R2")
@@ -686,5 +712,11 @@ def run(repo: Repo, rep: Report, tier: str) -> None:
 
     memo_rule(repo, rep, "C04.R11")
     layout_fold_rule(repo, rep, "C04.R12", 3 if tier == "thorough" else 2)
+    struct_rw_fold_rule(repo, rep, "C04.R13", 3 if tier == "thorough" else 2)
+    from .c09 import zero_alignment_rule
+
+    zero_alignment_rule(repo, rep, "C04.R14")
+
+
 
 
